@@ -57,21 +57,25 @@ Qed.
 Lemma trace_target_2d : forall I c a00 a01 a10 a11 b0 b1,
   i_nd I = 2%nat ->
   tsum 0 [a00; a01; a10; a11; b0; b1] (div_target I c)
-  == i_alpha I * (a00 + a11) * nth c (i_vols I) 0.
+  == (al I 0 0 * a00 + al I 0 1 * a01 + al I 1 0 * a10 + al I 1 1 * a11) * nth c (i_vols I) 0.
 Proof.
   intros I c a00 a01 a10 a11 b0 b1 Hnd. unfold tsum, div_target. rewrite Hnd.
   change (0 <? 2 * 2)%nat with true. change (1 <? 2 * 2)%nat with true.
   change (2 <? 2 * 2)%nat with true. change (3 <? 2 * 2)%nat with true.
   change (4 <? 2 * 2)%nat with false. change (5 <? 2 * 2)%nat with false.
-  change (0 / 2 =? 0 mod 2)%nat with true. change (1 / 2 =? 1 mod 2)%nat with false.
-  change (2 / 2 =? 2 mod 2)%nat with false. change (3 / 2 =? 3 mod 2)%nat with true.
+  change (0 / 2)%nat with 0%nat. change (1 / 2)%nat with 0%nat.
+  change (2 / 2)%nat with 1%nat. change (3 / 2)%nat with 1%nat.
+  change (0 mod 2)%nat with 0%nat. change (1 mod 2)%nat with 1%nat.
+  change (2 mod 2)%nat with 0%nat. change (3 mod 2)%nat with 1%nat.
   cbv iota. ring.
 Qed.
 
 Lemma trace_target_3d : forall I c a00 a01 a02 a10 a11 a12 a20 a21 a22 b0 b1 b2,
   i_nd I = 3%nat ->
   tsum 0 [a00; a01; a02; a10; a11; a12; a20; a21; a22; b0; b1; b2] (div_target I c)
-  == i_alpha I * (a00 + a11 + a22) * nth c (i_vols I) 0.
+  == (al I 0 0 * a00 + al I 0 1 * a01 + al I 0 2 * a02
+      + al I 1 0 * a10 + al I 1 1 * a11 + al I 1 2 * a12
+      + al I 2 0 * a20 + al I 2 1 * a21 + al I 2 2 * a22) * nth c (i_vols I) 0.
 Proof.
   intros I c a00 a01 a02 a10 a11 a12 a20 a21 a22 b0 b1 b2 Hnd. unfold tsum, div_target. rewrite Hnd.
   change (0 <? 3 * 3)%nat with true. change (1 <? 3 * 3)%nat with true.
@@ -80,24 +84,42 @@ Proof.
   change (6 <? 3 * 3)%nat with true. change (7 <? 3 * 3)%nat with true.
   change (8 <? 3 * 3)%nat with true. change (9 <? 3 * 3)%nat with false.
   change (10 <? 3 * 3)%nat with false. change (11 <? 3 * 3)%nat with false.
-  change (0 / 3 =? 0 mod 3)%nat with true. change (1 / 3 =? 1 mod 3)%nat with false.
-  change (2 / 3 =? 2 mod 3)%nat with false. change (3 / 3 =? 3 mod 3)%nat with false.
-  change (4 / 3 =? 4 mod 3)%nat with true. change (5 / 3 =? 5 mod 3)%nat with false.
-  change (6 / 3 =? 6 mod 3)%nat with false. change (7 / 3 =? 7 mod 3)%nat with false.
-  change (8 / 3 =? 8 mod 3)%nat with true.
+  change (0 / 3)%nat with 0%nat. change (1 / 3)%nat with 0%nat. change (2 / 3)%nat with 0%nat.
+  change (3 / 3)%nat with 1%nat. change (4 / 3)%nat with 1%nat. change (5 / 3)%nat with 1%nat.
+  change (6 / 3)%nat with 2%nat. change (7 / 3)%nat with 2%nat. change (8 / 3)%nat with 2%nat.
+  change (0 mod 3)%nat with 0%nat. change (1 mod 3)%nat with 1%nat. change (2 mod 3)%nat with 2%nat.
+  change (3 mod 3)%nat with 0%nat. change (4 mod 3)%nat with 1%nat. change (5 mod 3)%nat with 2%nat.
+  change (6 mod 3)%nat with 0%nat. change (7 mod 3)%nat with 1%nat. change (8 mod 3)%nat with 2%nat.
   cbv iota. ring.
 Qed.
+
+(* scalar coupling coefficient a: alpha = a * I on the nd x nd block *)
+Definition scalar_alpha (I : inst) (a : Q) : Prop :=
+  forall k l, (k < i_nd I)%nat -> (l < i_nd I)%nat -> al I k l == if Nat.eqb k l then a else 0.
 
 Lemma linear_fields_2d : forall I c a00 a01 a10 a11 b0 b1,
   i_nd I = 2%nat ->
   (forall m, (m < nparam I)%nat ->
      rdot (nth c (i_drows I) []) (basis I m) == div_target I c m) ->
   rdot (nth c (i_drows I) []) (ustate I [a00; a01; a10; a11; b0; b1])
-  == i_alpha I * (a00 + a11) * nth c (i_vols I) 0.
+  == (al I 0 0 * a00 + al I 0 1 * a01 + al I 1 0 * a10 + al I 1 1 * a11) * nth c (i_vols I) 0.
 Proof.
   intros I c a00 a01 a10 a11 b0 b1 Hnd H.
   rewrite (linear_fields I _ (div_target I c)); [apply trace_target_2d; exact Hnd| |exact H].
   unfold nparam. rewrite Hnd. reflexivity.
+Qed.
+
+Lemma linear_fields_2d_scalar : forall I c a a00 a01 a10 a11 b0 b1,
+  i_nd I = 2%nat -> scalar_alpha I a ->
+  (forall m, (m < nparam I)%nat ->
+     rdot (nth c (i_drows I) []) (basis I m) == div_target I c m) ->
+  rdot (nth c (i_drows I) []) (ustate I [a00; a01; a10; a11; b0; b1])
+  == a * (a00 + a11) * nth c (i_vols I) 0.
+Proof.
+  intros I c a a00 a01 a10 a11 b0 b1 Hnd Ha H.
+  rewrite (linear_fields_2d I c a00 a01 a10 a11 b0 b1 Hnd H).
+  rewrite (Ha 0%nat 0%nat), (Ha 0%nat 1%nat), (Ha 1%nat 0%nat), (Ha 1%nat 1%nat) by lia.
+  cbn [Nat.eqb]. ring.
 Qed.
 
 Lemma linear_fields_3d : forall I c a00 a01 a02 a10 a11 a12 a20 a21 a22 b0 b1 b2,
@@ -105,11 +127,27 @@ Lemma linear_fields_3d : forall I c a00 a01 a02 a10 a11 a12 a20 a21 a22 b0 b1 b2
   (forall m, (m < nparam I)%nat ->
      rdot (nth c (i_drows I) []) (basis I m) == div_target I c m) ->
   rdot (nth c (i_drows I) []) (ustate I [a00; a01; a02; a10; a11; a12; a20; a21; a22; b0; b1; b2])
-  == i_alpha I * (a00 + a11 + a22) * nth c (i_vols I) 0.
+  == (al I 0 0 * a00 + al I 0 1 * a01 + al I 0 2 * a02
+      + al I 1 0 * a10 + al I 1 1 * a11 + al I 1 2 * a12
+      + al I 2 0 * a20 + al I 2 1 * a21 + al I 2 2 * a22) * nth c (i_vols I) 0.
 Proof.
   intros I c a00 a01 a02 a10 a11 a12 a20 a21 a22 b0 b1 b2 Hnd H.
   rewrite (linear_fields I _ (div_target I c)); [apply trace_target_3d; exact Hnd| |exact H].
   unfold nparam. rewrite Hnd. reflexivity.
+Qed.
+
+Lemma linear_fields_3d_scalar : forall I c a a00 a01 a02 a10 a11 a12 a20 a21 a22 b0 b1 b2,
+  i_nd I = 3%nat -> scalar_alpha I a ->
+  (forall m, (m < nparam I)%nat ->
+     rdot (nth c (i_drows I) []) (basis I m) == div_target I c m) ->
+  rdot (nth c (i_drows I) []) (ustate I [a00; a01; a02; a10; a11; a12; a20; a21; a22; b0; b1; b2])
+  == a * (a00 + a11 + a22) * nth c (i_vols I) 0.
+Proof.
+  intros I c a a00 a01 a02 a10 a11 a12 a20 a21 a22 b0 b1 b2 Hnd Ha H.
+  rewrite (linear_fields_3d I c a00 a01 a02 a10 a11 a12 a20 a21 a22 b0 b1 b2 Hnd H).
+  rewrite (Ha 0%nat 0%nat), (Ha 0%nat 1%nat), (Ha 0%nat 2%nat), (Ha 1%nat 0%nat), (Ha 1%nat 1%nat),
+          (Ha 1%nat 2%nat), (Ha 2%nat 0%nat), (Ha 2%nat 1%nat), (Ha 2%nat 2%nat) by lia.
+  cbn [Nat.eqb]. ring.
 Qed.
 
 (* what the sampled state is: u_k = sum_l A_kl x_l + b_k at the point of the column *)
@@ -177,9 +215,9 @@ Proof.
   rewrite IH. unfold ones. ring.
 Qed.
 
-Lemma grad_p : forall r p alpha n,
-  rdot r ones == - alpha * n -> rdot r (fun _ => p) == - alpha * p * n.
-Proof. intros r p alpha n H. rewrite rdot_const, H. ring. Qed.
+Lemma grad_p : forall r p an,
+  rdot r ones == - an -> rdot r (fun _ => p) == - (p * an).
+Proof. intros r p an H. rewrite rdot_const, H. ring. Qed.
 
 (* ------------------------------------------------------------------ the checkers *)
 Definition div_bound (tol : Q) (I : inst) (c : nat) (theta : list Q) : Q :=
@@ -236,24 +274,170 @@ Proof.
     eapply near_zero_exact. apply Hgrad. apply in_seq. lia.
 Qed.
 
+(* ------------------------------------------------------------------ the divergence-theorem form on
+   the cells of an instance, under the guard "all faces planar" *)
+Lemma cmp_v3_of : forall i l, (i < 3)%nat -> cmp i (v3_of l) = nth i l 0.
+Proof. intros i l Hi. destruct i as [|[|[|i]]]; try reflexivity. lia. Qed.
+
+Lemma Nrm_cell : forall I c i, (i < 3)%nat ->
+  Nrm (cell_faces_of I c) i == isum (nth c (i_inc I) []) (fun f => coord (i_normals I) f i).
+Proof.
+  intros I c i Hi. unfold Nrm, cell_faces_of.
+  induction (nth c (i_inc I) []) as [|fs ic IH]; cbn [map fsum isum]; [reflexivity|].
+  rewrite IH. unfold f_s, f_n. cbn [fst snd]. rewrite (cmp_v3_of i _ Hi). unfold coord. reflexivity.
+Qed.
+
+Lemma Mom_cell : forall I c i j, (i < 3)%nat -> (j < 3)%nat ->
+  Mom (cell_faces_of I c) i j
+  == isum (nth c (i_inc I) []) (fun f => coord (i_fc I) f j * coord (i_normals I) f i).
+Proof.
+  intros I c i j Hi Hj. unfold Mom, cell_faces_of.
+  induction (nth c (i_inc I) []) as [|fs ic IH]; cbn [map fsum isum]; [reflexivity|].
+  rewrite IH. unfold f_s, f_n, f_x. cbn [fst snd].
+  rewrite (cmp_v3_of i _ Hi), (cmp_v3_of j _ Hj). unfold coord. reflexivity.
+Qed.
+
+Lemma geo_ok_sound : forall tol I c i j,
+  geo_ok tol I = true -> (c < i_nc I)%nat -> (i < i_nd I)%nat -> (j < i_nd I)%nat ->
+  Qabs (isum (nth c (i_inc I) []) (fun f => coord (i_normals I) f i)) <= eps_nrm tol I c i
+  /\ Qabs (isum (nth c (i_inc I) []) (fun f => coord (i_fc I) f j * coord (i_normals I) f i)
+           - (if Nat.eqb i j then nth c (i_vols I) 0 else 0)) <= eps_mom tol I c i j.
+Proof.
+  intros tol I c i j H Hc Hi Hj. unfold geo_ok in H. rewrite forallb_forall in H.
+  assert (Hinc : In c (seq 0 (i_nc I))) by (apply in_seq; lia).
+  specialize (H c Hinc). cbv zeta in H. rewrite forallb_forall in H.
+  assert (Hini : In i (seq 0 (i_nd I))) by (apply in_seq; lia).
+  specialize (H i Hini). apply andb_prop in H. destruct H as [H1 H2].
+  rewrite forallb_forall in H2.
+  assert (Hinj : In j (seq 0 (i_nd I))) by (apply in_seq; lia).
+  specialize (H2 j Hinj).
+  apply near_sound in H1. apply near_sound in H2. split.
+  - unfold eps_nrm.
+    setoid_replace (isum (nth c (i_inc I) []) (fun f => coord (i_normals I) f i))
+      with (isum (nth c (i_inc I) []) (fun f => coord (i_normals I) f i) - 0) by ring.
+    exact H1.
+  - unfold eps_mom. exact H2.
+Qed.
+
+Definition err3 (fs : list face) (V : Q) (m : nat) : Q :=
+  match m with
+  | 0%nat => Mom fs 0 0 - V | 1%nat => Mom fs 0 1 | 2%nat => Mom fs 0 2
+  | 3%nat => Mom fs 1 0 | 4%nat => Mom fs 1 1 - V | 5%nat => Mom fs 1 2
+  | 6%nat => Mom fs 2 0 | 7%nat => Mom fs 2 1 | 8%nat => Mom fs 2 2 - V
+  | 9%nat => Nrm fs 0 | 10%nat => Nrm fs 1 | 11%nat => Nrm fs 2
+  | _ => 0
+  end.
+
+Definition theta3 (A : m3) (b : v3) : list Q :=
+  [cmp 0 (mrow 0 A); cmp 1 (mrow 0 A); cmp 2 (mrow 0 A);
+   cmp 0 (mrow 1 A); cmp 1 (mrow 1 A); cmp 2 (mrow 1 A);
+   cmp 0 (mrow 2 A); cmp 1 (mrow 2 A); cmp 2 (mrow 2 A); cmp 0 b; cmp 1 b; cmp 2 b].
+
+Lemma div_u_error3 : forall fs A b V,
+  face_div fs A b - trace A * V == tsum 0 (theta3 A b) (err3 fs V).
+Proof.
+  intros fs A b V. rewrite div_u_identity. unfold theta3. cbn [tsum err3].
+  destruct A as [[[[a00 a01] a02] [[a10 a11] a12]] [[a20 a21] a22]].
+  unfold trace, cmp, mrow, x0, x1, x2. cbn [fst snd]. ring.
+Qed.
+
+Definition err2 (fs : list face) (V : Q) (m : nat) : Q :=
+  match m with
+  | 0%nat => Mom fs 0 0 - V | 1%nat => Mom fs 0 1
+  | 2%nat => Mom fs 1 0 | 3%nat => Mom fs 1 1 - V
+  | 4%nat => Nrm fs 0 | 5%nat => Nrm fs 1
+  | _ => 0
+  end.
+
+Lemma div_u_error2 : forall fs a00 a01 a10 a11 b0 b1 V,
+  face_div fs ((a00, a01, 0), (a10, a11, 0), (0, 0, 0)) (b0, b1, 0) - (a00 + a11) * V
+  == tsum 0 [a00; a01; a10; a11; b0; b1] (err2 fs V).
+Proof.
+  intros fs a00 a01 a10 a11 b0 b1 V. rewrite div_u_identity. cbn [tsum err2].
+  unfold cmp, mrow, x0, x1, x2. cbn [fst snd]. ring.
+Qed.
+
+Lemma div_u_on_instance_3d : forall tol I c A b,
+  check tol I = true -> i_planar I = true -> i_nd I = 3%nat -> (c < i_nc I)%nat ->
+  Qabs (face_div (cell_faces_of I c) A b - trace A * nth c (i_vols I) 0)
+  <= tsum 0 (map Qabs (theta3 A b)) (geo_eps3 tol I c).
+Proof.
+  intros tol I c A b H Hpl Hnd Hc. unfold check in H.
+  apply andb_prop in H. destruct H as [_ Hgeo]. rewrite Hpl in Hgeo.
+  rewrite div_u_error3. apply tsum_abs_bound. intros m Hm.
+  assert (G : forall i j, (i < 3)%nat -> (j < 3)%nat ->
+     Qabs (Nrm (cell_faces_of I c) i) <= eps_nrm tol I c i
+     /\ Qabs (Mom (cell_faces_of I c) i j - (if Nat.eqb i j then nth c (i_vols I) 0 else 0))
+         <= eps_mom tol I c i j).
+  { intros i j Hi Hj. rewrite (Nrm_cell I c i Hi), (Mom_cell I c i j Hi Hj).
+    apply geo_ok_sound; try assumption; rewrite Hnd; assumption. }
+  unfold theta3 in Hm. cbn [length] in Hm.
+  destruct m as [|[|[|[|[|[|[|[|[|[|[|[|m]]]]]]]]]]]]; [..|lia]; cbn [err3 geo_eps3].
+  - exact (proj2 (G 0%nat 0%nat ltac:(lia) ltac:(lia))).
+  - pose proof (proj2 (G 0%nat 1%nat ltac:(lia) ltac:(lia))) as E. cbn [Nat.eqb] in E.
+    setoid_replace (Mom (cell_faces_of I c) 0 1) with (Mom (cell_faces_of I c) 0 1 - 0) by ring. exact E.
+  - pose proof (proj2 (G 0%nat 2%nat ltac:(lia) ltac:(lia))) as E. cbn [Nat.eqb] in E.
+    setoid_replace (Mom (cell_faces_of I c) 0 2) with (Mom (cell_faces_of I c) 0 2 - 0) by ring. exact E.
+  - pose proof (proj2 (G 1%nat 0%nat ltac:(lia) ltac:(lia))) as E. cbn [Nat.eqb] in E.
+    setoid_replace (Mom (cell_faces_of I c) 1 0) with (Mom (cell_faces_of I c) 1 0 - 0) by ring. exact E.
+  - exact (proj2 (G 1%nat 1%nat ltac:(lia) ltac:(lia))).
+  - pose proof (proj2 (G 1%nat 2%nat ltac:(lia) ltac:(lia))) as E. cbn [Nat.eqb] in E.
+    setoid_replace (Mom (cell_faces_of I c) 1 2) with (Mom (cell_faces_of I c) 1 2 - 0) by ring. exact E.
+  - pose proof (proj2 (G 2%nat 0%nat ltac:(lia) ltac:(lia))) as E. cbn [Nat.eqb] in E.
+    setoid_replace (Mom (cell_faces_of I c) 2 0) with (Mom (cell_faces_of I c) 2 0 - 0) by ring. exact E.
+  - pose proof (proj2 (G 2%nat 1%nat ltac:(lia) ltac:(lia))) as E. cbn [Nat.eqb] in E.
+    setoid_replace (Mom (cell_faces_of I c) 2 1) with (Mom (cell_faces_of I c) 2 1 - 0) by ring. exact E.
+  - exact (proj2 (G 2%nat 2%nat ltac:(lia) ltac:(lia))).
+  - exact (proj1 (G 0%nat 0%nat ltac:(lia) ltac:(lia))).
+  - exact (proj1 (G 1%nat 0%nat ltac:(lia) ltac:(lia))).
+  - exact (proj1 (G 2%nat 0%nat ltac:(lia) ltac:(lia))).
+Qed.
+
+Lemma div_u_on_instance_2d : forall tol I c a00 a01 a10 a11 b0 b1,
+  check tol I = true -> i_planar I = true -> i_nd I = 2%nat -> (c < i_nc I)%nat ->
+  Qabs (face_div (cell_faces_of I c) ((a00, a01, 0), (a10, a11, 0), (0, 0, 0)) (b0, b1, 0)
+        - (a00 + a11) * nth c (i_vols I) 0)
+  <= tsum 0 (map Qabs [a00; a01; a10; a11; b0; b1]) (geo_eps2 tol I c).
+Proof.
+  intros tol I c a00 a01 a10 a11 b0 b1 H Hpl Hnd Hc. unfold check in H.
+  apply andb_prop in H. destruct H as [_ Hgeo]. rewrite Hpl in Hgeo.
+  rewrite div_u_error2. apply tsum_abs_bound. intros m Hm.
+  assert (G : forall i j, (i < 2)%nat -> (j < 2)%nat ->
+     Qabs (Nrm (cell_faces_of I c) i) <= eps_nrm tol I c i
+     /\ Qabs (Mom (cell_faces_of I c) i j - (if Nat.eqb i j then nth c (i_vols I) 0 else 0))
+         <= eps_mom tol I c i j).
+  { intros i j Hi Hj. rewrite (Nrm_cell I c i), (Mom_cell I c i j) by lia.
+    apply geo_ok_sound; try assumption; rewrite Hnd; assumption. }
+  cbn [length] in Hm.
+  destruct m as [|[|[|[|[|[|m]]]]]]; [..|lia]; cbn [err2 geo_eps2].
+  - exact (proj2 (G 0%nat 0%nat ltac:(lia) ltac:(lia))).
+  - pose proof (proj2 (G 0%nat 1%nat ltac:(lia) ltac:(lia))) as E. cbn [Nat.eqb] in E.
+    setoid_replace (Mom (cell_faces_of I c) 0 1) with (Mom (cell_faces_of I c) 0 1 - 0) by ring. exact E.
+  - pose proof (proj2 (G 1%nat 0%nat ltac:(lia) ltac:(lia))) as E. cbn [Nat.eqb] in E.
+    setoid_replace (Mom (cell_faces_of I c) 1 0) with (Mom (cell_faces_of I c) 1 0 - 0) by ring. exact E.
+  - exact (proj2 (G 1%nat 1%nat ltac:(lia) ltac:(lia))).
+  - exact (proj1 (G 0%nat 0%nat ltac:(lia) ltac:(lia))).
+  - exact (proj1 (G 1%nat 0%nat ltac:(lia) ltac:(lia))).
+Qed.
+
 (* ------------------------------------------------------------------ a concrete instance:
    the real pp.Biot matrices on CartGrid([2, 1]) (2 cells, 7 faces), mu = 1, lambda = 2,
    alpha = 1/2, all boundary faces Dirichlet.  Every entry is dyadic and the certificates
    hold exactly (tolerance 0). *)
 Definition ex_inst : inst :=
-(mk_inst 2%nat 2%nat 7%nat (1 # 2) [[(1 # 2); (1 # 2)]; [(3 # 2); (1 # 2)]] [[(0 # 1); (1 # 2)]; [(1
-# 1); (1 # 2)]; [(2 # 1); (1 # 2)]; [(1 # 2); (0 # 1)]; [(3 # 2); (0 # 1)]; [(1 # 2); (1 # 1)]; [(3
-# 2); (1 # 1)]] [[(1 # 1); (0 # 1)]; [(1 # 1); (0 # 1)]; [(1 # 1); (0 # 1)]; [(0 # 1); (1 # 1)]; [(0
-# 1); (1 # 1)]; [(0 # 1); (1 # 1)]; [(0 # 1); (1 # 1)]] [(1 # 1); (1 # 1)] [[(0%nat, ((-1) # 1));
-(1%nat, (1 # 1)); (3%nat, ((-1) # 1)); (5%nat, (1 # 1))]; [(1%nat, ((-1) # 1)); (2%nat, (1 # 1));
-(4%nat, ((-1) # 1)); (6%nat, (1 # 1))]] [true; false; true; true; true; true; true] true [[(0%nat,
-(1 # 4)); (2%nat, (1 # 4)); (4%nat, ((-1) # 2)); (11%nat, ((-7) # 16)); (13%nat, ((-1) # 16));
-(15%nat, (7 # 16)); (17%nat, (1 # 16))]; [(0%nat, ((-1) # 4)); (2%nat, ((-1) # 4)); (8%nat, (1 #
-2)); (11%nat, ((-1) # 16)); (13%nat, ((-7) # 16)); (15%nat, (1 # 16)); (17%nat, (7 # 16))]]
-[[(0%nat, ((-1) # 2))]; []; [(0%nat, ((-1) # 4)); (1%nat, ((-1) # 4))]; []; [(1%nat, ((-1) # 2))];
-[]; []; [(0%nat, ((-7) # 16)); (1%nat, ((-1) # 16))]; []; [(0%nat, ((-1) # 16)); (1%nat, ((-7) #
-16))]; []; [(0%nat, ((-7) # 16)); (1%nat, ((-1) # 16))]; []; [(0%nat, ((-1) # 16)); (1%nat, ((-7) #
-16))]]).
+(mk_inst 2%nat 2%nat 7%nat [[(1 # 2); (0 # 1); (0 # 1)]; [(0 # 1); (1 # 2); (0 # 1)]; [(0 # 1); (0 #
+1); (1 # 2)]] [[(1 # 2); (1 # 2)]; [(3 # 2); (1 # 2)]] [[(0 # 1); (1 # 2)]; [(1 # 1); (1 # 2)]; [(2
+# 1); (1 # 2)]; [(1 # 2); (0 # 1)]; [(3 # 2); (0 # 1)]; [(1 # 2); (1 # 1)]; [(3 # 2); (1 # 1)]] [[(1
+# 1); (0 # 1)]; [(1 # 1); (0 # 1)]; [(1 # 1); (0 # 1)]; [(0 # 1); (1 # 1)]; [(0 # 1); (1 # 1)]; [(0
+# 1); (1 # 1)]; [(0 # 1); (1 # 1)]] [(1 # 1); (1 # 1)] [[(0%nat, ((-1) # 1)); (1%nat, (1 # 1));
+(3%nat, ((-1) # 1)); (5%nat, (1 # 1))]; [(1%nat, ((-1) # 1)); (2%nat, (1 # 1)); (4%nat, ((-1) # 1));
+(6%nat, (1 # 1))]] [true; false; true; true; true; true; true] true [[(0%nat, (1 # 4)); (2%nat, (1 #
+4)); (4%nat, ((-1) # 2)); (11%nat, ((-7) # 16)); (13%nat, ((-1) # 16)); (15%nat, (7 # 16)); (17%nat,
+(1 # 16))]; [(0%nat, ((-1) # 4)); (2%nat, ((-1) # 4)); (8%nat, (1 # 2)); (11%nat, ((-1) # 16));
+(13%nat, ((-7) # 16)); (15%nat, (1 # 16)); (17%nat, (7 # 16))]] [[(0%nat, ((-1) # 2))]; []; [(0%nat,
+((-1) # 4)); (1%nat, ((-1) # 4))]; []; [(1%nat, ((-1) # 2))]; []; []; [(0%nat, ((-7) # 16)); (1%nat,
+((-1) # 16))]; []; [(0%nat, ((-1) # 16)); (1%nat, ((-7) # 16))]; []; [(0%nat, ((-7) # 16)); (1%nat,
+((-1) # 16))]; []; [(0%nat, ((-1) # 16)); (1%nat, ((-7) # 16))]]).
 
 Lemma ex_inst_check : check 0 ex_inst = true.
 Proof. vm_compute. reflexivity. Qed.
@@ -262,3 +446,36 @@ Proof. vm_compute. reflexivity. Qed.
 Definition ex_square : list face :=
   [(-(1), (1, 0, 0), (0, 1 # 2, 0)); (1, (1, 0, 0), (1, 1 # 2, 0));
    (-(1), (0, 1, 0), (1 # 2, 0, 0)); (1, (0, 1, 0), (1 # 2, 1, 0))].
+
+(* a single hexahedron with moved corners (non-planar faces), real pp.Biot matrices and geometry:
+   the Biot certificates hold, the first-moment identity sum_f s x_f n_f^T = |K| I does NOT *)
+Definition ex_nonplanar : inst :=
+(mk_inst 3%nat 1%nat 6%nat [[(1 # 1); (0 # 1); (0 # 1)]; [(0 # 1); (1 # 1); (0 # 1)]; [(0 # 1); (0 #
+1); (1 # 1)]] [[(4457534659807883 # 9007199254740992); (1164972763819645 # 2251799813685248);
+(8762609675741783 # 18014398509481984)]] [[(0 # 1); (4890720067780953 # 9007199254740992);
+(4701592524374317 # 9007199254740992)]; [(8995070874345297 # 9007199254740992); (4602041655147643 #
+9007199254740992); (8453901458645105 # 18014398509481984)]; [(2388561666776301 # 4503599627370496);
+(0 # 1); (8854534860592839 # 18014398509481984)]; [(2111679344664055 # 4503599627370496);
+(4647837378263327 # 4503599627370496); (4397357712577169 # 9007199254740992)]; [(4686420371643975 #
+9007199254740992); (4686420371643975 # 9007199254740992); (4700908092244849 # 144115188075855872)];
+[(4233455233209203 # 9007199254740992); (8796146254890791 # 18014398509481984); (8718813193364747 #
+9007199254740992)]] [[(127 # 128); (0 # 1); (0 # 1)]; [(15 # 16); (7 # 64); (1 # 8)]; [(0 # 1); (59
+# 64); (0 # 1)]; [(1 # 16); (15 # 16); (1 # 16)]; [(9 # 128); (9 # 128); (9 # 8)]; [(1 # 16); ((-7)
+# 128); (15 # 16)]] [(1965 # 2048)] [[(0%nat, ((-1) # 1)); (1%nat, (1 # 1)); (2%nat, ((-1) # 1));
+(3%nat, (1 # 1)); (4%nat, ((-1) # 1)); (5%nat, (1 # 1))]] [true; true; true; true; true; true] false
+[[(0%nat, (3546574085291215 # 144115188075855872)); (1%nat, ((-4943310868242709) #
+2305843009213693952)); (2%nat, (1118327745558369 # 18014398509481984)); (3%nat, ((-8793947799834383)
+# 9007199254740992)); (4%nat, ((-8404825397342747) # 144115188075855872)); (5%nat,
+((-7854809991206561) # 144115188075855872)); (6%nat, (4300203819938355 # 4503599627370496)); (7%nat,
+(8219354185515693 # 144115188075855872)); (8%nat, (1920480043477865 # 36028797018963968)); (9%nat,
+((-2290195742976497) # 72057594037927936)); (10%nat, ((-4187426478084909) # 4503599627370496));
+(11%nat, ((-4726440826259105) # 144115188075855872)); (12%nat, (2299038477954627 #
+72057594037927936)); (13%nat, (4204615090667555 # 4503599627370496)); (14%nat, (1186096916828789 #
+36028797018963968)); (15%nat, ((-1015883944051329) # 18014398509481984)); (16%nat,
+((-3893577156582803) # 576460752303423488)); (17%nat, ((-298461221560655) # 281474976710656));
+(18%nat, (7659454556485933 # 144115188075855872)); (19%nat, (229446706898315 # 36028797018963968));
+(20%nat, (4500639576588359 # 4503599627370496))]] [[(0%nat, ((-127) # 128))]; []; []; [(0%nat,
+((-15) # 16))]; [(0%nat, ((-7) # 64))]; [(0%nat, ((-1) # 8))]; []; [(0%nat, ((-59) # 64))]; [];
+[(0%nat, ((-1) # 16))]; [(0%nat, ((-15) # 16))]; [(0%nat, ((-1) # 16))]; [(0%nat, ((-9) # 128))];
+[(0%nat, ((-9) # 128))]; [(0%nat, ((-9) # 8))]; [(0%nat, ((-1) # 16))]; [(0%nat, (7 # 128))];
+[(0%nat, ((-15) # 16))]]).
